@@ -322,7 +322,86 @@ func H_c19_bytesfilter() {
 	vp.Reach("done")
 }
 
+// H_c19_filter_hist: histories of k operations over a growing pool of filters. Each operation is a
+// solver-enumerated choice: Add(key) on any filter of the pool, or a new filter derived from any filter by
+// Extend() with no, one or two keys, ExtendString("") or ExtendString("k1,k2"). Keys are symbolic over an
+// alphabet whose one-byte keys collide in one bucket. After every operation every filter of the pool is
+// compared with its list-of-keys model on every key made so far (so an operation on one filter that shows
+// in another - shared buckets, shared prefix bitmap, a "derived" filter that is the same object - is seen).
+func H_c19_filter_hist() {
+	alpha := vp.ParamStr("alpha", "a!\xa1b")
+	k := vp.ParamInt("k", 3)
+	klen := vp.ParamInt("klen", 1)
+	var keys [][]byte
+	newKey := func() []byte {
+		b := vp.Bytes("k", klen)
+		for _, c := range b {
+			vp.Assume(vp.InSet(c, alpha))
+		}
+		keys = append(keys, b)
+		return b
+	}
+	type fm struct {
+		f util.BytesFilter
+		m [][]byte
+	}
+	member := func(m [][]byte, key []byte) bool {
+		r := false
+		for _, e := range m {
+			r = vp.Or(r, vp.EqBytes(e, key))
+		}
+		return r
+	}
+	var pool []*fm
+	if vp.ParamInt("fromstring", 0) == 1 {
+		k0 := newKey()
+		pool = append(pool, &fm{f: util.NewBytesFilterString(string(k0) + ",zz"), m: [][]byte{k0, []byte("zz")}})
+	} else {
+		pool = append(pool, &fm{f: util.NewBytesFilter()})
+	}
+	checkAll := func(tag string) {
+		for _, x := range pool {
+			for _, key := range keys {
+				vp.Assert(x.f.Contains(key) == member(x.m, key), tag)
+			}
+		}
+	}
+	for step := 0; step < k; step++ {
+		op := vp.Concrete(vp.IntRange("op", 0, 5))
+		i := vp.Concrete(vp.IntRange("on", 0, len(pool)-1))
+		x := pool[i]
+		cp := func() [][]byte { return append([][]byte{}, x.m...) }
+		switch op {
+		case 0:
+			key := newKey()
+			x.f.Add(key)
+			x.m = append(x.m, key)
+			checkAll("a filter disagrees with its set model after Add on one filter of the pool")
+		case 1:
+			pool = append(pool, &fm{f: x.f.Extend(), m: cp()})
+			checkAll("after Extend() with no keys")
+		case 2:
+			key := newKey()
+			pool = append(pool, &fm{f: x.f.Extend(key), m: append(cp(), key)})
+			checkAll("after Extend(key)")
+		case 3:
+			pool = append(pool, &fm{f: x.f.ExtendString(""), m: cp()})
+			checkAll("after ExtendString(\"\")")
+		case 4:
+			k1, k2 := newKey(), newKey()
+			pool = append(pool, &fm{f: x.f.ExtendString(string(k1) + "," + string(k2)), m: append(cp(), k1, k2)})
+			checkAll("after ExtendString(\"k1,k2\")")
+		case 5:
+			k1, k2 := newKey(), newKey()
+			pool = append(pool, &fm{f: x.f.Extend(k1, k2), m: append(cp(), k1, k2)})
+			checkAll("after Extend(k1, k2)")
+		}
+	}
+	vp.Reach("done")
+}
+
 func init() {
+	reg("H_c19_filter_hist", H_c19_filter_hist)
 	reg("H_c19_escape_html", H_c19_escape_html)
 	reg("H_c19_urlescape", H_c19_urlescape)
 	reg("H_c19_urlescape_triple", H_c19_urlescape_triple)
